@@ -7,7 +7,10 @@ from j2ov import corpus, pipeline
 ids = corpus.registry_ids(include_f64=True)
 sel = [i for i in ids if any(k in i for k in sys.argv[1:])]
 for pid in sel[:60]:
-    p = corpus.registry_program(pid)
+    try:
+        p = corpus.registry_program(pid)
+    except corpus.OutOfBound as e:
+        print(pid,'out_of_bound',e); continue
     r = pipeline.analyze(p)
     print(pid, r['status'], r.get('reason',''), {k:v for k,v in r.get('stats',{}).items() if v}, r.get('wall_s'))
     if r['status'] in('harness_error',): print(r.get('tb'))
